@@ -7,7 +7,10 @@ Three parts per case:
   * the inputs, the recorded draws and the observed outputs become a term of Corr.C11.case that
     coqc re-evaluates with the model.
 """
+import copy
 import functools
+import json
+import os
 import itertools
 import operator
 from fractions import Fraction
@@ -143,7 +146,7 @@ class PS(object):
     """A deap pset plus the numbering used in the Coq terms."""
     counter = [0]
 
-    def __init__(self, gp, typed, rng, gappy=False, small=False):
+    def __init__(self, gp, typed, rng, gappy=False, small=False, builder=None):
         self.gp = gp
         PS.counter[0] += 1
         self.k = PS.counter[0]
@@ -159,7 +162,9 @@ class PS(object):
             return orig(pset_self, prim)
         gp.PrimitiveSetTyped._add = recording_add
         try:
-            if typed:
+            if builder is not None:
+                builder(self, gp)
+            elif typed:
                 self._build_typed(rng, gappy, small)
             else:
                 self._build_untyped(rng, small)
@@ -334,6 +339,31 @@ class PS(object):
         return {"typed": self.typed, "ret": nm(self.pset.ret),
                 "nodes": [(x.name, [nm(a) for a in x.args] if isinstance(x, gp.Primitive) else None, nm(x.ret),
                            self.is_eph_class(x)) for x in self.universe]}
+
+
+def build_arith(self, gp):
+    """loosely typed: add/2, neg/1, two arguments -- chains neg(neg(x)) and bushy add(x, y) have equal size and
+    different height"""
+    ps = gp.PrimitiveSet("MAIN", 2)
+    ps.addPrimitive(self._fn, 2, name="add")
+    ps.addPrimitive(self._fn, 1, name="neg")
+    self.pset = ps
+    self.types = [object]
+
+
+def build_chain(self, gp):
+    """strongly typed over the subclass chain TA > TB > TD with "twin" primitives whose parameters are
+    subclass-related (co-/contravariant candidates for node replacement)"""
+    ps = gp.PrimitiveSetTyped("MAIN", [], TA)
+    for name, args, ret in [("ida", [TA], TA), ("fromb", [TB], TA), ("fromd", [TD], TA), ("idb", [TB], TB),
+                            ("btoa", [TA], TB), ("dtob", [TB], TD), ("two", [TA, TA], TA), ("twob", [TB, TA], TA),
+                            ("twod", [TA, TD], TB)]:
+        ps.addPrimitive(self._fn, args, ret, name=name)
+    ps.addTerminal(1, TA, name="a")
+    ps.addTerminal(2, TB, name="b")
+    ps.addTerminal(3, TD, name="d")
+    self.pset = ps
+    self.types = [TA, TB, TD]
 
 
 # --------------------------------------------------------------------------- literals
@@ -680,9 +710,23 @@ def main(run):
         for (b, e, v) in [(s.start, s.stop, vals[0]), (s.start, s.stop, vals[1]), (s.start, s.stop, vals[2]),
                           (n, n + 1, vals[0]), (n + 2, n + 3, vals[0]), (s.start, s.stop, vals[3]), (s.start, s.start, vals[0])]:
             tt = gp.PrimitiveTree(list(t))
+            tt.height, len(tt)
+            tc = copy.deepcopy(tt)
             try:
                 tt[b:e] = v
+                tc[b:e] = v
                 out = ("ok", ps.lit(tt))
+                for obj, what in ((tt, "tree"), (tc, "deep copy")):
+                    nodes_ = list(obj)
+                    if not structure_problems(gp, nodes_, object) or True:
+                        try:
+                            indep = depths(nodes_)[0] if parse(nodes_)[2] == len(nodes_) else None
+                        except ValueError:
+                            indep = None
+                        if indep is not None and obj.height != indep:
+                            viol("height of the %s read again after a slice assignment is %d, deepest node at depth %d"
+                                 % (what, obj.height, indep),
+                                 {"kind": "setslice-height", "pset": ps.name, "tree": names(ps, t), "slice": [b, e], "value": names(ps, v)})
             except IndexError:
                 out = ("raise", "IndexError")
             except ValueError:
@@ -710,7 +754,7 @@ def main(run):
             return gp.mutShrink, {}
         raise ValueError(k)
 
-    def op_case(ps, op, inputs, src, limit=None, in_type=None):
+    def op_case(ps, op, inputs, src, limit=None, in_type=None, heights_too=False):
         """inputs: list of node lists (not modified). limit = (key name, max_value) wraps with staticLimit."""
         fn, kw = op_callable(ps, op)
         if limit is not None:
@@ -721,7 +765,20 @@ def main(run):
             THRESHOLDS[0] = op[1]
         else:
             THRESHOLDS[0] = float(ps.ratio)
-        out, log = with_proxy(src, lambda: [list(t) for t in fn(*args, **kw)])
+        # measurements are read BEFORE the operation on the very objects that are then modified in place
+        # (and deep-copied by staticLimit), and again afterwards on the returned objects
+        for a in args:
+            try:
+                a.height, len(a)
+            except IndexError:
+                pass
+        held = []
+
+        def call():
+            r = list(fn(*args, **kw))
+            held[:] = r
+            return [list(t) for t in r]
+        out, log = with_proxy(src, call)
         exp_t = ps.pset.ret if in_type is None else in_type
         case = {"kind": "op", "pset": ps.name, "op": list(op), "limit": limit,
                 "inputs": [names(ps, t) for t in inputs], "draws": [e[:3] if e[0] == "choice" else e for e in log]}
@@ -749,11 +806,29 @@ def main(run):
             lits = [ps.lit(t) for t in res]
             for t in res:
                 wt_case(ps, t, exp_t)
+            post_h = []
+            for obj in held:
+                try:
+                    post_h.append(("ok", obj.height))
+                except IndexError:
+                    post_h.append(("raise", "IndexError"))
+            case["observed_heights"] = [h[1] for h in post_h]
             if in_ok:
                 for j, t in enumerate(res):
                     probs = structure_problems(gp, t, exp_t)
                     if probs:
                         viol("operator output %d is not a complete well-typed prefix expression: %s" % (j, probs[0]), case)
+                    elif post_h[j] != ("ok", depths(t)[0]):
+                        viol("height read on returned tree %d (after a read before the operation) is %r, deepest node at depth %d"
+                             % (j, post_h[j][1], depths(t)[0]), case)
+                    elif len(held[j]) != len(t):
+                        viol("len of returned tree %d inconsistent" % j, case)
+            if heights_too or rng.random() < 0.25:
+                for t, h in zip(res, post_h):
+                    if len(t) <= 80:
+                        emit(ps, "CHeight U%d %s %s" % (ps.k, clit(ps.lit(t)), coutcome(h, cz)),
+                             {"kind": "height-after-op", "pset": ps.name, "tree": names(ps, t), "observed": h[1],
+                              "op": list(op), "inputs": case["inputs"], "draws": case["draws"]}, len(t) > 1)
                 if limit is None:
                     if op[0] in ("cx", "cxlb") and sum(map(len, res)) != sum(map(len, inputs)):
                         viol("crossover does not conserve the total node count", case)
@@ -799,14 +874,14 @@ def main(run):
     def arity2(op):
         return 2 if op[0] in ("cx", "cxlb") else 1
 
-    def enumerate_draws(ps, op, inputs, budget, limit=None):
+    def enumerate_draws(ps, op, inputs, budget, limit=None, heights_too=False):
         """all draw outcomes of one operator application (DFS over the scripted choices)"""
         stack = [[]]
         n = 0
         while stack and n < budget:
             script = stack.pop()
             src = ScriptSrc(script, unit_options=UNIT_OPTIONS)
-            op_case(ps, op, inputs, src, limit=limit)
+            op_case(ps, op, inputs, src, limit=limit, heights_too=heights_too)
             n += 1
             counts = src.counts
             for pos in range(len(script), len(counts)):
@@ -814,6 +889,82 @@ def main(run):
                 for v in range(1, counts[pos]):
                     stack.append(base + [v])
         return n
+
+    # ---------------------------------------------------------------- corpus (runs first) and targeted scopes
+    arith = PS(gp, False, rng, builder=build_arith)
+    chainps = PS(gp, True, rng, builder=build_chain)
+    fixed = {"arith": arith, "chain": chainps}
+
+    def by_name(ps, nms):
+        return [ps.pset.mapping[n] for n in nms]
+
+    cdir = os.path.join(os.path.dirname(os.path.dirname(os.path.abspath(__file__))), "corpus")
+    ncorpus = 0
+    for fn_ in sorted(os.listdir(cdir)) if os.path.isdir(cdir) else []:
+        if not (fn_.startswith("C11") and fn_.endswith(".json")):
+            continue
+        c = json.load(open(os.path.join(cdir, fn_)))
+        ps = fixed[c["pset"]]
+        ins = [by_name(ps, t) for t in c["inputs"]]
+        lim = tuple(c["limit"]) if c.get("limit") else None
+        opc = tuple(tuple(x) if isinstance(x, list) else x for x in c["op"])
+        if c.get("enumerate"):
+            enumerate_draws(ps, opc, ins, 500, limit=lim, heights_too=True)
+        else:
+            op_case(ps, opc, ins, ScriptSrc(c["script"]), limit=lim, heights_too=True)
+        ncorpus += 1
+    run.notes.append("corpus cases replayed first: %d" % ncorpus)
+
+    # equal-size subtrees of different height (chains neg(neg(x)) vs bushy add(x, y)) at several depths:
+    # every pair of crossover points, with heights read before and after, with and without a height limit
+    # equal to the parents' maximum (a child may be taller without being longer)
+    X_, Y_ = "ARG0", "ARG1"
+
+    def chain_t(k):
+        return ["neg"] * (k - 1) + [X_]
+
+    def bushy_t(k):
+        t = [X_]
+        for i in range((k - 1) // 2):
+            t = ["add"] + t + [Y_ if i % 2 == 0 else X_]
+        return t
+
+    def wrap_t(d, t, left=True):
+        for _ in range(d):
+            t = (["add"] + t + [Y_]) if left else (["add", Y_] + t)
+        return t
+    shapes = []
+    for k in (3, 5, 7):
+        for d1 in ((0, 2) if not run.thorough else (0, 1, 2, 3)):
+            for d2 in ((0, 1) if not run.thorough else (0, 1, 2)):
+                shapes.append((wrap_t(d1, bushy_t(k)), wrap_t(d2, chain_t(k), left=(d1 + d2) % 2 == 0)))
+    shapes.append((wrap_t(1, ["add", "add", X_, Y_, "add", X_, Y_]), wrap_t(1, chain_t(7))))
+    for (na, nb) in shapes:
+        a, b = by_name(arith, na), by_name(arith, nb)
+        hmax = max(depths(a)[0], depths(b)[0])
+        enumerate_draws(arith, ("cx",), [a, b], 400, limit=("height", hmax), heights_too=True)
+        enumerate_draws(arith, ("cx",), [b, a], 120, limit=("height", hmax))
+        enumerate_draws(arith, ("cx",), [a, b], 60, heights_too=True)
+        enumerate_draws(arith, ("cxlb", 0.5), [a, b], 60, limit=("height", hmax))
+        for kind in ("full", "grow"):
+            for _ in range(run.scale(3, 10)):
+                op_case(arith, ("uniform", (kind, 1, 2)), [a], RandSrc(rng), limit=("height", depths(a)[0]), heights_too=True)
+                op_case(arith, ("uniform", (kind, 1, 3)), [b], RandSrc(rng), heights_too=True)
+        op_case(arith, ("insert",), [a], RandSrc(rng), limit=("height", depths(a)[0]))
+
+    # node replacement over a subclass chain with co-/contravariant twins: every node index, every candidate
+    ctrees = [by_name(chainps, t) for t in (["ida", "ida", "a"], ["two", "ida", "a", "a"], ["twob", "b", "ida", "a"],
+                                            ["ida", "btoa", "ida", "a"], ["fromb", "idb", "b"], ["fromd", "dtob", "b"],
+                                            ["two", "fromb", "d", "twod", "b", "d"], ["ida", "twod", "btoa", "a", "d"])]
+    more = enum_trees(chainps, TA, 4)
+    ctrees += rng.sample(more, min(len(more), run.scale(40, 200)))
+    for t in ctrees:
+        enumerate_draws(chainps, ("noderepl",), [t], 80)
+    for t in ctrees[:run.scale(12, 60)]:
+        enumerate_draws(chainps, ("shrink",), [t], 30)
+        enumerate_draws(chainps, ("insert",), [t], 30)
+        other = rng.choice(ctrees)
+        enumerate_draws(chainps, ("cx",), [t, other], 40)
 
     # ---------------------------------------------------------------- psets
     npsets = run.scale(10, 28)
